@@ -63,6 +63,8 @@ def value_for(section, key, typ, src, flip, sb, absolute):
     if typ in ("str", "str-cli"):
         if key == "module_path_separator":
             return {"s": "::", "u": "/", "c": "-"}[src]
+        if flip and src == "c" and key == "prefix" and absolute:
+            return ""             # -p '' is a value, not an absent flag
         return {"s": f" {key[:6]}_{src} ", "u": f"{key[:6]} {src}\t", "c": f"{key[:6]}_{src}  "}[src] if flip else f"{key[:6]}_{src}"
     if typ == "strlist":
         return {"s": ["=", "-", "~"], "u": ["^", "+"], "c": ["*"]}[src]
